@@ -16,6 +16,7 @@ Decided
   +   the metadata writer and reader use the same csv dialect (quoting, quote / escape characters); the subset store is never half-loaded
       (existence test on all three files, or every read inside a handler that answers "no store")
   +   prerequisite: the export and lookup routes of the waveform subset (C03.S2, Y4, Y1, A1, A2, P1) hold - "subset-store waveforms equal those read from the raw data"
+  +   the metadata reader takes the delimiter it finds in the header line (delimiter tables shared with C18.T3)
 Not decided: overwrite semantics across histories at value level, cell typing (C18), the waveforms themselves (C03).
 """
 import ast
@@ -480,7 +481,9 @@ def run(ctx):
     from obligations.C18 import number_recovery, csv_dialect_agreement
     ctx.part('C10.T1', number_recovery, 'C10.T1')
     # the metadata files are written by _write_tsv_simple and read by _read_tsv_simple: a label with a tab, a quote or a line break survives only if the two agree on the dialect
-    ctx.part('C10.T1', csv_dialect_agreement, 'C10.T1', '_write_tsv_simple', '_read_tsv_simple')
+    # ... and on the delimiter: the reader takes the delimiter it finds in the header line (metadata found in OTHER tsv / csv files is read whatever its extension)
+    from obligations.C18 import tsv_delimiters
+    ctx.part('C10.T1', tsv_delimiters, 'C10.T1', (('_write_tsv_simple', '_read_tsv_simple'),))
 
 
 LEVEL_TEXT = ('Static effect analysis of the four saving methods of the model against per-method write whitelists (so that no save can touch '
